@@ -1,7 +1,342 @@
-//! Correspondence harness of property C19 (stub).
-use mzkh::Ctx;
+//! Correspondence harness of property C19 (regex compilation, automaton parsing, base64).
+mod spec;
+
+use std::collections::BTreeMap;
+
+use midnight_circuits::parsing::{
+    regex::{Regex, VerifRegexTree},
+    verif_hooks::Automaton,
+};
+use mzkh::{catch, Ctx};
+use rand::Rng;
+use rand_chacha::ChaCha8Rng;
+use serde_json::json;
+
+use spec::*;
+
+// ---------------------------------------------------------------------------------------------
+// Automata: text form and runs
+// ---------------------------------------------------------------------------------------------
+
+/// `A nb_states initial F k f*k R k (source target marker hexmask-of-bytes)*k`, sorted.
+pub fn dfa_text(a: &Automaton) -> String {
+    let mut finals: Vec<usize> = a.final_states.iter().copied().collect();
+    finals.sort();
+    let mut rows: BTreeMap<(usize, usize, usize), [u64; 4]> = BTreeMap::new();
+    for (&(s, b), &(t, m)) in a.transitions.iter() {
+        let e = rows.entry((s, t, m)).or_insert([0; 4]);
+        e[(b as usize) / 64] |= 1u64 << ((b as usize) % 64);
+    }
+    let mut out = vec![
+        "A".to_string(),
+        a.nb_states.to_string(),
+        a.initial_state.to_string(),
+        "F".into(),
+        finals.len().to_string(),
+    ];
+    out.extend(finals.iter().map(|f| f.to_string()));
+    out.push("R".into());
+    out.push(rows.len().to_string());
+    for ((s, t, m), mask) in rows {
+        out.push(s.to_string());
+        out.push(t.to_string());
+        out.push(m.to_string());
+        out.push(mask_hex(&mask));
+    }
+    out.join(" ")
+}
+
+/// Mirror of the (test-only) `Automaton::run`: final state and markers, `None` if stuck.
+pub fn run(a: &Automaton, input: &[u8]) -> Option<(usize, Vec<usize>)> {
+    let mut s = a.initial_state;
+    let mut out = Vec::with_capacity(input.len());
+    for b in input {
+        let (t, m) = *a.transitions.get(&(s, *b))?;
+        s = t;
+        out.push(m);
+    }
+    Some((s, out))
+}
+
+pub fn accepts(a: &Automaton, input: &[u8]) -> Option<Vec<usize>> {
+    run(a, input).and_then(|(s, m)| a.final_states.contains(&s).then_some(m))
+}
+
+pub fn word_text(bytes: &[u8], markers: &[usize]) -> String {
+    if bytes.is_empty() {
+        "-".into()
+    } else {
+        bytes.iter().zip(markers).map(|(b, m)| format!("{b}:{m}")).collect::<Vec<_>>().join(",")
+    }
+}
+
+/// A random accepted word (random walk that is steered towards a final state), if any.
+fn sample_accepted(a: &Automaton, rng: &mut ChaCha8Rng, max_len: usize) -> Option<Vec<u8>> {
+    // distance to a final state (backward BFS)
+    let n = a.nb_states;
+    let mut dist = vec![usize::MAX; n];
+    let mut rev: Vec<Vec<usize>> = vec![vec![]; n];
+    let mut succ: Vec<Vec<(u8, usize)>> = vec![vec![]; n];
+    for (&(s, b), &(t, _)) in a.transitions.iter() {
+        rev[t].push(s);
+        succ[s].push((b, t));
+    }
+    succ.iter_mut().for_each(|v| v.sort());
+    let mut queue: std::collections::VecDeque<usize> = Default::default();
+    let mut finals: Vec<usize> = a.final_states.iter().copied().collect();
+    finals.sort();
+    for f in finals {
+        dist[f] = 0;
+        queue.push_back(f);
+    }
+    while let Some(s) = queue.pop_front() {
+        for &p in &rev[s] {
+            if dist[p] == usize::MAX {
+                dist[p] = dist[s] + 1;
+                queue.push_back(p);
+            }
+        }
+    }
+    if dist[a.initial_state] == usize::MAX {
+        return None;
+    }
+    let target_len = rng.gen_range(0..=max_len);
+    let mut s = a.initial_state;
+    let mut w = vec![];
+    loop {
+        let remaining = max_len.saturating_sub(w.len());
+        if a.final_states.contains(&s) && (w.len() >= target_len || succ[s].is_empty()) {
+            return Some(w);
+        }
+        // candidates that can still reach a final state within the budget
+        let cands: Vec<&(u8, usize)> = succ[s]
+            .iter()
+            .filter(|(_, t)| dist[*t] != usize::MAX && dist[*t] < remaining.max(1))
+            .collect();
+        let cands: Vec<&(u8, usize)> = if w.len() >= target_len {
+            // head for the closest final state
+            let best = cands.iter().map(|(_, t)| dist[*t]).min();
+            cands.into_iter().filter(|(_, t)| Some(dist[*t]) == best).collect()
+        } else {
+            cands
+        };
+        if cands.is_empty() {
+            return if a.final_states.contains(&s) { Some(w) } else { None };
+        }
+        let (b, t) = *cands[rng.gen_range(0..cands.len())];
+        w.push(b);
+        s = t;
+        if w.len() > max_len + n {
+            return None;
+        }
+    }
+}
+
+// ---------------------------------------------------------------------------------------------
+// Regex compilation: translation validation + sampled words
+// ---------------------------------------------------------------------------------------------
+
+struct Compiled {
+    tree: VerifRegexTree,
+    tree_s: String,
+    automaton: Automaton,
+}
+
+/// Builds and compiles one specification through the real library; emits the all-words
+/// equivalence request and the sampled-word requests.
+fn one_spec(ctx: &mut Ctx, s: &Spec, rng: &mut ChaCha8Rng, nwords: usize) -> Option<Compiled> {
+    let mut tags = vec![];
+    spec_tags(s, &mut tags);
+    let regex: Regex = match catch(|| build(s)) {
+        Ok(r) => r,
+        Err(msg) => {
+            if msg.contains("markers are not allowed under complement") {
+                ctx.count("regex:build-refused-markers-under-neg");
+            } else {
+                ctx.oracle_fail(
+                    &format!("regex-build-panic:{}", spec_string(s)),
+                    "building a regular expression with the public combinators panics",
+                    json!({"spec": spec_string(s), "panic": msg}),
+                );
+            }
+            return None;
+        }
+    };
+    let tree = regex.verif_dump();
+    let tsize = tree_size(&tree);
+    if tsize > 600 {
+        ctx.count("regex:skipped-too-large");
+        return None;
+    }
+    let tree_s = tree_string(&tree);
+    let automaton: Automaton = match catch(|| regex.to_automaton()) {
+        Ok(a) => a,
+        Err(msg) => {
+            if msg.contains("non output-deterministic") {
+                ctx.count("regex:refused-non-output-deterministic");
+            } else {
+                ctx.oracle_fail(
+                    &format!("regex-compile-panic:{}", tree_s),
+                    "Regex::to_automaton panics",
+                    json!({"spec": spec_string(s), "tree": tree_s, "panic": msg}),
+                );
+            }
+            return None;
+        }
+    };
+    for t in &tags {
+        ctx.count(&format!("combinator:{t}"));
+    }
+    ctx.count(&format!("regex:depth-{}", spec_depth(s)));
+    ctx.count(&format!(
+        "automaton:states-{}",
+        match automaton.nb_states {
+            0..=1 => "0-1",
+            2..=4 => "2-4",
+            5..=16 => "5-16",
+            17..=64 => "17-64",
+            _ => "65+",
+        }
+    ));
+    let nontrivial = automaton.nb_states > 1 && !automaton.transitions.is_empty();
+    ctx.case(
+        "equiv",
+        nontrivial,
+        &format!("equiv {} | {}", tree_s, dfa_text(&automaton)),
+        "equiv",
+    );
+    ctx.count("programs");
+    // sampled words: accepted ones (random walks), their mutations, random ones
+    let mut words: Vec<Vec<u8>> = vec![vec![]];
+    for _ in 0..nwords {
+        if let Some(w) = sample_accepted(&automaton, rng, 40) {
+            let mut m = w.clone();
+            words.push(w);
+            if !m.is_empty() {
+                match rng.gen_range(0..3) {
+                    0 => {
+                        let i = rng.gen_range(0..m.len());
+                        m[i] = POOL[rng.gen_range(0..POOL.len())];
+                    }
+                    1 => {
+                        let i = rng.gen_range(0..m.len());
+                        m.remove(i);
+                    }
+                    _ => {
+                        let i = rng.gen_range(0..=m.len());
+                        m.insert(i, POOL[rng.gen_range(0..POOL.len())]);
+                    }
+                }
+                words.push(m);
+            }
+        }
+        let n = rng.gen_range(0..6);
+        words.push((0..n).map(|_| POOL[rng.gen_range(0..POOL.len())]).collect());
+    }
+    words.sort();
+    words.dedup();
+    for w in words {
+        let (ans, markers) = match accepts(&automaton, &w) {
+            Some(m) => ("1", m),
+            None => {
+                // markers of the partial run, 0 afterwards
+                let mut ms = vec![];
+                let mut st = automaton.initial_state;
+                for b in &w {
+                    match automaton.transitions.get(&(st, *b)) {
+                        Some(&(t, m)) => {
+                            st = t;
+                            ms.push(m)
+                        }
+                        None => break,
+                    }
+                }
+                ms.resize(w.len(), 0);
+                ("0", ms)
+            }
+        };
+        ctx.case(
+            if ans == "1" { "match-accepted" } else { "match-rejected" },
+            !w.is_empty(),
+            &format!("match {} | {}", tree_s, word_text(&w, &markers)),
+            ans,
+        );
+    }
+    Some(Compiled {
+        tree,
+        tree_s,
+        automaton,
+    })
+}
+
+fn fixed_specs() -> Vec<Spec> {
+    use Spec::*;
+    let w = |s: &str| Word(s.as_bytes().to_vec());
+    let bx = Box::new;
+    vec![
+        Epsilon,
+        Union(vec![]),
+        Any,
+        AnyByte,
+        w("hello"),
+        // regex_test regex0
+        SepCat(vec![w("hello"), w("test"), w("lmao!")], bx(BlanksStrict)),
+        // regex2 / regex3 of the repository tests
+        List(bx(MarkBytes(bx(AnyByte), b" \n\t".to_vec(), 1))),
+        List(bx(Mark(bx(AnyByte), vec![(b'\t', 3), (b'\n', 2), (b' ', 1)]))),
+        And(
+            bx(SepCat(vec![w("hello"), w("test"), w("lmao!")], bx(BlanksStrict))),
+            bx(List(bx(Mark(bx(AnyByte), vec![(b'\t', 3), (b'\n', 2), (b' ', 1)])))),
+        ),
+        // automaton_test regex5..regex8
+        Minus(bx(Any), bx(List(bx(Or(bx(ByteFrom(vec![0])), bx(ByteFrom(vec![1]))))))),
+        Minus(
+            bx(List(bx(Minus(bx(AnyByte), bx(ByteFrom(vec![2])))))),
+            bx(ByteFrom(vec![0])),
+        ),
+        SepList(
+            bx(MarkBytes(bx(NonEmptyList(bx(ByteFrom(vec![1])))), vec![1], 1)),
+            bx(ByteFrom(vec![2])),
+        ),
+        // complements of the two languages whose automata have no transition
+        Neg(bx(Epsilon)),
+        Neg(bx(Union(vec![]))),
+        Minus(bx(List(bx(Lower))), bx(Epsilon)),
+        Neg(bx(Neg(bx(w("ab"))))),
+        Utf8,
+        JsonString,
+        RepeatAtMost(bx(Digit), 3),
+        SpacedSepList(bx(NonEmptyList(bx(Digit))), bx(w(","))),
+    ]
+}
+
+fn run_regex(ctx: &mut Ctx) {
+    let mut rng = ctx.rng("regex");
+    let n_random = if ctx.quick() {
+        250
+    } else if ctx.thorough() {
+        4000
+    } else {
+        600
+    };
+    let nwords = if ctx.quick() { 4 } else { 8 };
+    for s in fixed_specs() {
+        ctx.count("regex:fixed");
+        one_spec(ctx, &s, &mut rng, nwords);
+    }
+    for i in 0..n_random {
+        let depth = 1 + (i % 5);
+        let s = gen(&mut rng, depth, true);
+        if spec_size(&s) > 60 {
+            ctx.count("regex:skipped-spec-too-large");
+            continue;
+        }
+        one_spec(ctx, &s, &mut rng, nwords);
+    }
+}
 
 fn main() {
-    let ctx = Ctx::from_args("C19");
+    let mut ctx = Ctx::from_args("C19");
+    run_regex(&mut ctx);
     ctx.finish();
 }
